@@ -42,6 +42,8 @@ def check(run):
     R.rule('C09.sites', 'every transport-operation call site is on a call path from run() whose faults are absorbed; no '
                         'exception escapes run(); post-publication handlers close the socket then yield the terminal '
                         'event; no handler resumes the loop after a transport fault', 16)
+    from .common import exception_text_total as _ett
+    _ett(R, 'C09.sites')        # '{}'.format(error) in the failure handlers cannot itself fail
     R.rule('C09.apiwrap', 'write() raises only WebSocketError subclasses, built from constant format strings', 3)
     R.rule('C09.swallow', 'library-initiated sends absorb every WebSocketError write() can raise', 3)
     R.rule('C09.tryall', 'address loop: every socket failure continues with the next address; break only after a '
